@@ -20,7 +20,7 @@ def plan(tier):
 
 def check_example(ctx, ex, form):
     src = ex['markdown']
-    source = src if form == 'str' else src.splitlines(keepends=True)
+    source = src if form == 'str' else workloads.lines_of(src)
     case = {'example': ex['example'], 'section': ex['section'], 'form': form, 'markdown': src}
     try:
         got = mt.render(source, 'Html', html_escape_double_quotes=True)
